@@ -851,7 +851,9 @@ def run_c12(ctx):
             ctx.violations += judge_c12(ctx, cfg, batch)
             for d in batch[:3]:
                 ctx.sample({'op': 'st', 'cfg': cfg, 'input_hex': hx(d), 'calls': 7})
-    for cfg in [c for c in getattr(ctx, 'side_cfgs', []) if c not in ctx.cfgs]:
+    # unbounded_depth side configuration: a stream iterator made from a Deserializer whose limit was disabled keeps the flag (items deeper than 128 are yielded)
+    ctx.violations += judge_unbounded(ctx)
+    for cfg in [c for c in getattr(ctx, 'side_cfgs', []) if c not in ctx.cfgs and c != 'ud']:
         # float_roundtrip side configuration: long number literals (scratch-buffer paths of de.rs) as LATER items of a stream, after items that leave
         # bytes in the shared scratch buffer (escaped strings, > u64 integers, other long decimals)
         rng = ctx.rng
@@ -1401,7 +1403,7 @@ register('C02', cfgs={'quick': ['def', 'po'], 'thorough': ['def', 'po', 'fr', 'a
 register('C09', cfgs={'quick': ['def'], 'thorough': ['def', 'raw', 'ap', 'fr', 'po', 'ud']}, side_cfgs=['ap', 'fr', 'raw'], run=run_c09, judge=judge_c09, extended=run_c09, trusted_base=PARSER_TB)
 register('C10', cfgs={'quick': ['def', 'raw'], 'thorough': ['def', 'raw', 'ap']}, side_cfgs=['ap', 'fr'], run=run_c10, judge=None, extended=run_c10, trusted_base=PARSER_TB)
 register('C11', cfgs={'quick': ['def'], 'thorough': ['def']}, side_cfgs=['ap', 'fr'], run=run_c11, judge=judge_c11, extended=run_c11, trusted_base=PARSER_TB)
-register('C12', cfgs={'quick': ['def'], 'thorough': ['def']}, side_cfgs=['fr', 'ap'], run=run_c12, judge=judge_c12, extended=run_c12, trusted_base=PARSER_TB)
+register('C12', cfgs={'quick': ['def'], 'thorough': ['def']}, side_cfgs=['fr', 'ap', 'ud'], run=run_c12, judge=judge_c12, extended=run_c12, trusted_base=PARSER_TB)
 register('C13', cfgs={'quick': ['def'], 'thorough': ['def']}, side_cfgs=['ap'], run=run_c13, judge=None, extended=run_c13, trusted_base=PARSER_TB)
 register('C14', cfgs={'quick': ['def'], 'thorough': ['def', 'ud']}, side_cfgs=['ud', 'fr'], run=run_c14, judge=judge_c14, extended=run_c14, trusted_base=PARSER_TB)
 register('C19', cfgs={'quick': ['raw'], 'thorough': ['raw', 'rawpofr']}, run=run_c19, judge=judge_c19, extended=run_c19, trusted_base=PARSER_TB)
